@@ -438,7 +438,8 @@ fn main() {
             let mut cr = CaseResult::default();
             let nthreads = 2 + i % 7;
             let w = [16u8, 32, 112][i % 3];
-            let ops = ctx.tier.pick(4000usize, 20_000);
+            // interpreters (Miri) run a much smaller schedule
+            let ops = std::env::var("VERIF_THREAD_OPS").ok().and_then(|s| s.parse().ok()).unwrap_or(ctx.tier.pick(4000usize, 20_000));
             let (n, reuse) = threaded(ctx.seed ^ i as u64, nthreads, ops, w, &mut cr.violations);
             cr.count("threaded_allocations", n);
             cr.count("values_allocated_more_than_once", reuse);
